@@ -490,6 +490,7 @@ def rule_dispatch(ck, F, X):
         # `if`, `match` alike (not the `find(.. == "extension")` that locates the container itself: that is no iteration context)
         tags = set()
         W = og.EnvWalker(F)
+        CE_ = og.CallExpander(F)
 
         def cb(e, env, ctx, tags=tags):
             if e.get("k") not in ("Call", "MethodCall"):
@@ -500,7 +501,7 @@ def rule_dispatch(ck, F, X):
             for c in ctx:
                 if c[0] != "alt" or c[2] is not True:
                     continue
-                cond = c[1]
+                cond = CE_.expand(c[1])     # `has_tag(n, "sequence")` is the comparison it makes
                 cs = og.nf_str(cond)
                 if "tag_name" not in cs:
                     continue
